@@ -795,9 +795,45 @@ class Library:
         self.idents = {id(it): _idents(it[2]) for it in self.items}
 
 
+def _count_args(st, i):
+    """st[i] is '(' ; number of top-level arguments"""
+    k = rl.match_close(st, i)
+    if k == i + 1:
+        return 0
+    depth, n = 0, 1
+    for t in st[i + 1:k]:
+        if t.text in rl.OPEN:
+            depth += 1
+        elif t.text in rl.CLOSE:
+            depth -= 1
+        elif t.text == "," and depth == 0:
+            n += 1
+    if st[k - 1].text == ",":
+        n -= 1
+    return n
+
+
+def fn_arity(text):
+    """(number of non-self parameters) of the function whose text starts at `fn`"""
+    st = rl.sig(rl.lex(strip_inserts(text)))
+    for i, t in enumerate(st):
+        if t.text == "fn":
+            j = i + 2
+            while st[j].text != "(":
+                j += 1
+            n = _count_args(st, j)
+            k = j + 1
+            first = [x.text for x in st[k:k + 3]]
+            if "self" in first[:3]:
+                n -= 1
+            return n
+    return -1
+
+
 def _fn_mentions(text, own_type, fn_index):
-    """function keys mentioned by `text`: `T::name` / `Self::name` -> that impl's function, `.name` -> every
-    method of that name, bare `name(` -> the free function.  Over-approximate on purpose."""
+    """function keys mentioned by `text`: `T::name` / `Self::name` -> that impl's function, `self.name(..)` -> the
+    own impl's method when it has one, `x.name(..)` -> every method of that name and arity, bare `name(` -> the
+    free function.  Over-approximate, never under-approximate."""
     st = rl.sig(rl.lex(text))
     out = set()
     for i, t in enumerate(st):
@@ -811,11 +847,15 @@ def _fn_mentions(text, own_type, fn_index):
             ty = st[i - 3].text if i > 2 else ""
             if ty == "Self":
                 ty = own_type
-            out |= {k for (k, impl) in cands if impl == ty}
+            out |= {k for (k, impl, ar) in cands if impl == ty}
         elif prev == "." and nxt == "(":
-            out |= {k for (k, impl) in cands if impl is not None}
+            n = _count_args(st, i + 1)
+            ms = {k for (k, impl, ar) in cands if impl is not None and ar == n}
+            if prev2 == "self" and (i < 3 or st[i - 3].text != ".") and any(impl == own_type for (k, impl, ar) in cands):
+                ms = {k for (k, impl, ar) in cands if impl == own_type}
+            out |= ms
         elif nxt == "(" and prev != "fn":
-            out |= {k for (k, impl) in cands if impl is None}
+            out |= {k for (k, impl, ar) in cands if impl is None}
     return out
 
 
@@ -826,7 +866,7 @@ def cone(ex, lib, root_fns, root_lemmas=()):
     for ch in ex.order:
         if ch[0] == "fn":
             fn_text[ch[1]] = ch[2]
-            fn_index.setdefault(ex.functions[ch[1]]["name"], []).append((ch[1], ex.functions[ch[1]]["impl"]))
+            fn_index.setdefault(ex.functions[ch[1]]["name"], []).append((ch[1], ex.functions[ch[1]]["impl"], fn_arity(ch[2])))
     keep_fn, keep_lib = set(), set()
     work = []
     for r in root_fns:
